@@ -209,9 +209,14 @@ def record_restructure(
     via_subgraphs: bool = False,
     default_recursion_limit: bool = False,
     probe_names: bool = False,
+    fork_between: bool = False,
 ) -> Dict[str, Any]:
     """Run join_returns / restructure_loop / restructure_branch on `scfg`,
-    recording every primitive event and the full state at every stage."""
+    recording every primitive event and the full state at every stage.
+
+    fork_between: before every stage but the first a COPY of the graph is made through the dictionary form and the REST of the pipeline
+    is run on the copy (untraced); the graph under observation is a graph that is held while its serialised copy is transformed.
+    Nothing the copy does may show in it: the state of the previous stage is captured again after the copy has been used."""
     st0 = project(scfg, pids)
     beh: Dict[str, Any] = {
         "id": ident,
@@ -254,7 +259,20 @@ def record_restructure(
     with Tracer(scfg, pids, primitives, names) as t:
         if probe_names:
             probe()
-        for name, fn in steps:
+        for idx, (name, fn) in enumerate(steps):
+            if fork_between and name != "closed":
+                Tracer.active = None            # the copy's own operations are not events of the observed graph
+                try:
+                    copy_, _ = SCFG.from_dict(scfg.to_dict())
+                    for _, fn2 in steps[idx:]:
+                        getattr(copy_, fn2)()
+                except Exception:
+                    pass
+                finally:
+                    Tracer.active = t
+                t.snap()
+                if stage_states and beh["reached"] in beh["stages"]:
+                    beh["stages"][beh["reached"]] = t.last
             if reload_between and name != "closed":
                 # write the graph out and read it back between stages (C18 histories); the new object replaces the old
                 # marker first: names drawn while the new graph is being built belong to the NEW generator's family
